@@ -7,14 +7,16 @@ From Verif Require Import Common.Base Binary.Model.
 Definition positive_sched (s : list Z) : Prop := Forall (fun c => 0 < c) s.
 
 (* A healthy source of the byte string d, as the constructors build it: the stream delivers d in
-   arbitrary non-empty chunks, reports io.EOF only after the last byte, and the size handed to the
-   constructor is len d.  (An os.File is the ReadSeeker backend with a closer and no schedule.) *)
+   arbitrary non-empty chunks, reports io.EOF after the last byte or together with the last bytes (ewl),
+   and the size handed to the constructor is len d.  (An os.File is the ReadSeeker backend with a closer
+   and no schedule.) *)
 Inductive healthy : bstate -> list Z -> Prop :=
 | H_bytes d : healthy (SBytes d) d
-| H_reader d sched : positive_sched sched -> healthy (SReader (mkR d sched false E_EOF 0 (len d))) d
-| H_seeker d sched closer : positive_sched sched ->
-    healthy (SSeeker (mkK d sched false E_EOF (len d) false closer)) d
-| H_readerat d : healthy (SReaderAt (mkA d [] false E_EOF (len d))) d.
+| H_mmap d : healthy (SMmap (mmap_open d)) d
+| H_reader d sched ewl : positive_sched sched -> healthy (SReader (mkR d sched ewl E_EOF 0 (len d))) d
+| H_seeker d sched ewl closer : positive_sched sched ->
+    healthy (SSeeker (mkK d sched ewl E_EOF (len d) false closer)) d
+| H_readerat d ewl : healthy (SReaderAt (mkA d [] ewl E_EOF (len d))) d.
 
 (* binaryReaderReader cannot seek; the others serve any offset *)
 Definition random_access (s : bstate) : bool := match s with SReader _ => false | _ => true end.
@@ -65,13 +67,8 @@ Definition zero_obs (o : op) (rest : list Z) (e : Z) (v : obs) : Prop :=
   | _ => v = VInt 0
   end.
 
-(* lengths that are not zero (the mmap backend treats n = 0 differently) *)
-Definition nonzero_len (o : op) : Prop :=
-  match o with
-  | ORead n | OReadBytes n | OReadString n | OReadAt n _ => n <> 0
-  | OClose => False
-  | _ => True
-  end.
+(* every operation except Close (which unmaps a memory map) *)
+Definition no_close (o : op) : Prop := match o with OClose => False | _ => True end.
 
 (* bit i of a buffer, most significant bit of byte 0 first *)
 Definition bit_at (buf : list Z) (i : Z) : bool := Z.testbit (getz buf (i / 8)) (7 - i mod 8).
@@ -89,8 +86,6 @@ Definition read_value (o : op) (little : bool) (data : list Z) : obs :=
   | _ => VNone
   end.
 
-Definition is8 (o : op) : Prop := match o with OU8 | OI8 | OReadByte => True | _ => False end.
-
 (* all values written with one byte order *)
 Definition enc_all (little : bool) (vs : list value) : list Z := concat (map (enc_value little) vs).
 
@@ -102,7 +97,6 @@ Inductive reachable (d : list Z) : sys bstate -> Prop :=
     reachable d st -> allowed (random_access (bst st)) o -> step any_backend st o = Some (st', v) ->
     reachable d st'.
 
-Definition in_memory (s : bstate) : Prop := exists d, s = SBytes d.
 
 (* observations equal up to the nil-ness of a byte string (ReadBytes past the end returns nil on the
    in-memory backend and an empty non-nil slice on the stream backends) *)
